@@ -23,6 +23,10 @@ Base(nw) == Catalogue(nw, Cen(nw), EpsC(nw), RGEN, AMPS, MAXHOPS, {{}})
 Down(nw) == Catalogue(nw, Cen(nw), IF nw = 1 THEN {<<0>>} ELSE {<<0, 1>>}, RGEN, AMPS, MAXHOPS2, {{}, {<<1, 0, 0>>}, {<<1, 0, 0>>, <<0, 1, 0>>}})
 (* without SOC terms: every pair; with SOC terms (on R-vectors of their own): spin-up with x-hops, spin-down on the same or on a larger R-set *)
 Socs(nw) == {MakeSOC(u, d) : u \in Base(nw), d \in Down(nw)}
+             \cup {MakeSOC(u, u) : u \in Base(nw)}                 \* one spin channel: SystemSOC(system_up); recognised by up = dn
+             \cup UNION {{SetSOC(MakeSOC(u, u), sd.rsS, Nspin1D(sd.D), PauliRot(1, 1), 1) :
+                            sd \in {x \in SocCatalogue(nw, MAXSOC) : x.rsS # {Z3}}} :
+                         u \in {b \in Base(nw) : b.rs = {Z3, <<1, 0, 0>>, <<-1, 0, 0>>}}}
              \cup UNION {{SetSOC(MakeSOC(u, d), sd.rsS, sd.D, PauliRot(1, 1), 1) :
                             d \in {b \in Down(nw) : b.rs = u.rs \/ Cardinality(b.rs) = 5},
                             sd \in {x \in SocCatalogue(nw, MAXSOC) : x.rsS # {Z3}}} :
@@ -30,15 +34,15 @@ Socs(nw) == {MakeSOC(u, d) : u \in Base(nw), d \in Down(nw)}
 Systems(kd) == IF kd = "SOC" THEN UNION {Socs(nw) : nw \in NWS} ELSE UNION {Base(nw) : nw \in NWS}
 
 (* NKFFT, Kp_fullBZ (quarters), half cell size (quarters); all corner k-points are on the quarter grid *)
-ParGrids == << [nk |-> <<1, 1, 1>>, kp |-> <<0, 0, 0>>, h |-> <<1, 1, 2>>],
+ParGrids == << [nk |-> <<2, 1, 2>>, kp |-> <<1, 3, 1>>, h |-> <<1, 2, 1>>],       \* shifted K-point on a grid with several points first
+               [nk |-> <<1, 1, 1>>, kp |-> <<0, 0, 0>>, h |-> <<1, 1, 2>>],
                [nk |-> <<2, 2, 1>>, kp |-> <<0, 0, 0>>, h |-> <<1, 1, 2>>],
                [nk |-> <<1, 1, 1>>, kp |-> <<2, 1, 0>>, h |-> <<1, 1, 1>>],
-               [nk |-> <<2, 1, 2>>, kp |-> <<1, 3, 1>>, h |-> <<1, 2, 1>>],
                [nk |-> <<4, 1, 1>>, kp |-> <<0, 2, 0>>, h |-> <<2, 1, 1>>] >>
 (* vertices relative to the centroid (they sum to zero), quarters *)
-TetGrids == << [nk |-> <<1, 1, 1>>, kp |-> <<1, 1, 1>>, v |-> <<<<-1, -1, -1>>, <<3, -1, -1>>, <<-1, 3, -1>>, <<-1, -1, 3>>>>],
-               [nk |-> <<2, 2, 1>>, kp |-> <<0, 0, 0>>, v |-> <<<<-2, -1, 0>>, <<2, -1, 0>>, <<0, 2, 1>>, <<0, 0, -1>>>>],
-               [nk |-> <<1, 2, 1>>, kp |-> <<2, 0, 3>>, v |-> <<<<1, 1, 1>>, <<-3, 1, 1>>, <<1, -3, 1>>, <<1, 1, -3>>>>] >>
+TetGrids == << [nk |-> <<1, 2, 1>>, kp |-> <<2, 0, 3>>, v |-> <<<<1, 1, 1>>, <<-3, 1, 1>>, <<1, -3, 1>>, <<1, 1, -3>>>>],
+               [nk |-> <<1, 1, 1>>, kp |-> <<1, 1, 1>>, v |-> <<<<-1, -1, -1>>, <<3, -1, -1>>, <<-1, 3, -1>>, <<-1, -1, 3>>>>],
+               [nk |-> <<2, 2, 1>>, kp |-> <<0, 0, 0>>, v |-> <<<<-2, -1, 0>>, <<2, -1, 0>>, <<0, 2, 1>>, <<0, 0, -1>>>>] >>
 
 HkOf(kd, s, k) == IF kd = "SOC" THEN HkSOC(s, k) ELSE Hk(s, k)
 Raises(kd, s) == kd = "SOC" /\ ~SocCornerDefined(s, DownFrom)
